@@ -32,7 +32,8 @@ REQUIRE = {'hits_checked': 5000, 'refused_by_count': 200, 'refused_by_period': 2
            'boundary_hits': 50, 'gated_cases': 30, 'hostile_schedules': 30,
            'overlap_cases': 30, 'hits_while_collection_open': 30, 'interpose_points': 15,
            'overlap_cases_with_condition': 8, 'sequential_probe_hits': 60,
-           'line_preemption_points': 40, 'line_preemptions_where_second_hit_completed': 2}
+           'line_preemption_points': 40, 'line_preemptions_where_second_hit_completed': 2,
+           'window_argument_cases': 6}
 T0 = 1_700_000_000_000_000_000
 MS = 1_000_000
 
@@ -53,6 +54,7 @@ def plan(tier, seed):
     specs += split_seeds('o%s' % seed, 64 * n, 4, 'overlap')
     specs += split_seeds('i%s' % seed, 12 * n, 3, 'interpose')
     specs += split_seeds('l%s' % seed, 8 * n, 4, 'linepreempt')
+    specs += split_seeds('w%s' % seed, 8 * n, 1, 'argwindow')
     return specs
 
 
@@ -728,6 +730,72 @@ def case_interpose(seed, out, spec, wd):
 
 
 
+def case_argwindow(seed, out, spec, wd):
+    """The time window given the way every other setting is given: as tracepoint arguments (service or
+    register_tracepoint). The window chosen lies wholly in the past, or wholly in the future, whatever unit the values
+    are read in - so no hit may act."""
+    import os
+    r = Rng('c04w', seed)
+    plugins.reset()
+    path, mod, line = setup_host(wd, 'w')
+    base = os.path.basename(path)
+    kind = r.pick(['snapshot', 'log', 'metric', 'span'])
+    which = r.pick(['ended_long_ago', 'starts_in_far_future'])
+    cfg = {'fire_count': '-1', 'fire_period': '0'}
+    if which == 'ended_long_ago':
+        cfg['window_end'] = '1'
+        if r.chance(0.5):
+            cfg['window_start'] = '0'
+    else:
+        cfg['window_start'] = str(10 ** 22)
+    from deep.api.tracepoint.tracepoint_config import MetricDefinition
+    args = dict(cfg)
+    metrics = []
+    if kind != 'snapshot':
+        args['snapshot'] = 'no_collect'
+    if kind == 'log':
+        args['log_msg'] = 'W'
+    if kind == 'metric':
+        metrics = [MetricDefinition('m', 'counter')]
+    if kind == 'span':
+        args['span'] = 'line'
+    trig = line_trigger('tp', base, line, args, [], metrics)
+    rig = Rig(custom={}, host_dir=wd, plugins=[plugins.RecLogger(), plugins.RecMetrics(), plugins.RecSpans()])
+    rig.install([trig] if trig is not None else [])
+    acted = []
+
+    def hook(name, callback, payload):
+        if callback in ('log', 'metric', 'span_open'):
+            acted.append(callback)
+
+    plugins.HOOK[0] = hook
+    nhits = r.randrange(1, 5)
+
+    def body():
+        for i in range(nhits):
+            clock.set_virtual(T0 + i * 2000 * MS)
+            mod.leaf(None, True)
+
+    try:
+        _, exc = rig.run(body)
+    finally:
+        clock.set_virtual(None)
+        plugins.HOOK[0] = None
+    n_acted = len(acted) + len(rig.push.pushed)
+    rig.cleanup()
+    replay = replay_spec(spec, seed)
+    witness = {'kind': kind, 'arguments': cfg, 'hits': nhits, 'actions_seen': n_acted}
+    if exc is not None or rig.escapes:
+        out.violation('containment:escape', 'host outcome %r / %s' % (exc, rig.escapes[:1]), witness, replay)
+    elif n_acted:
+        out.violation('window:arguments-not-enforced',
+                      'a %s tracepoint whose arguments give a window that %s acted %d time(s) in %d hits' % (
+                          kind, 'ended long ago' if which == 'ended_long_ago' else 'starts in the far future',
+                          n_acted, nhits), witness, replay)
+    out.count('window_argument_cases')
+    out.case({'argwindow': which, 'kind': kind, 'n': nhits}, nontrivial=True, sample=witness)
+
+
 def case_linepreempt(seed, out, spec, wd):
     """Pre-emption inside the limiter itself: thread A asks the action whether its hit may collect; at its k-th line
     inside deep/api/tracepoint (every k is tried, sys.monitoring LINE events) a second thread performs a complete hit
@@ -836,7 +904,7 @@ def case_linepreempt(seed, out, spec, wd):
 
 
 CASES = {'hist': case_hist, 'gate': case_gate, 'stress': case_stress, 'overlap': case_overlap,
-         'interpose': case_interpose, 'linepreempt': case_linepreempt}
+         'interpose': case_interpose, 'linepreempt': case_linepreempt, 'argwindow': case_argwindow}
 
 
 def run_shard(spec, out):
